@@ -1,6 +1,7 @@
 package props
 
 import (
+	cbg "github.com/whyrusleeping/cbor-gen"
 	"bytes"
 	"context"
 	"encoding/binary"
@@ -125,6 +126,7 @@ func runC10(c *vf.Ctx) {
 	c10RoundTrip(c)
 	c10Senders(c)
 	c10Hostile(c)
+	c10Crafted(c)
 }
 
 func c10RoundTrip(c *vf.Ctx) {
@@ -416,5 +418,177 @@ func c10Hostile(c *vf.Ctx) {
 			// GetAddrs on whatever was decoded: error or list, never panic
 			_, _ = d.GetAddrs()
 		})
+	}
+}
+
+// cborHdr writes a CBOR header (major type, value) in its shortest form.
+func cborHdr(maj byte, v uint64) []byte {
+	m := maj << 5
+	switch {
+	case v < 24:
+		return []byte{m | byte(v)}
+	case v < 1<<8:
+		return []byte{m | 24, byte(v)}
+	case v < 1<<16:
+		return []byte{m | 25, byte(v >> 8), byte(v)}
+	case v < 1<<32:
+		return []byte{m | 26, byte(v >> 24), byte(v >> 16), byte(v >> 8), byte(v)}
+	}
+	return []byte{m | 27, byte(v >> 56), byte(v >> 48), byte(v >> 40), byte(v >> 32), byte(v >> 24), byte(v >> 16), byte(v >> 8), byte(v)}
+}
+
+// c10Crafted: messages assembled by hand whose fields declare lengths at, just over and far over each field's cap,
+// with the declared bytes present or missing. Within the caps and complete: decodes and re-encodes to an equal
+// message. Over a cap: rejected without allocating for the declared length. Incomplete: rejected.
+func c10Crafted(c *vf.Ctx) {
+	const sub = "crafted-lengths"
+	if !c.Active(sub) {
+		return
+	}
+	const strCap, bytesCap = 8192, 2 << 20
+	type fld struct {
+		name string
+		cap  uint64
+	}
+	fields := []fld{{"orig-peer", strCap}, {"extra-data", bytesCap}, {"one-address", bytesCap}, {"address-count", strCap}}
+	var lens = map[string][]uint64{
+		"orig-peer":     {0, 1, 52, strCap - 1, strCap, strCap + 1, strCap + 8, 65536, 1 << 20, bytesCap, bytesCap + 1, 1 << 31, 1 << 40},
+		"extra-data":    {0, 1, 300, bytesCap - 1, bytesCap, bytesCap + 1, 1 << 24, 1 << 31, 1 << 40},
+		"one-address":   {0, 1, 40, 70000, bytesCap, bytesCap + 1, 1 << 31, 1 << 40},
+		"address-count": {0, 1, 3, strCap, strCap + 1, 1 << 20, 1 << 31, 1 << 40},
+	}
+	idx := 0
+	for _, f := range fields {
+		for _, L := range lens[f.name] {
+			for _, present := range []bool{true, false} {
+				i := idx
+				idx++
+				if !c.Mine(sub, i) {
+					continue
+				}
+				if present && L > bytesCap+1 {
+					continue // (the declared bytes cannot be supplied)
+				}
+				if f.name == "address-count" && present && L > strCap+1 {
+					continue
+				}
+				r := c.Rand(sub, i)
+				desc := fmt.Sprintf("field=%s declared-length=%d declared-bytes-present=%v", f.name, L, present)
+				c.Cur(sub, i, desc)
+				base, _ := c10GenMsg(r, false)
+				var in bytes.Buffer
+				in.Write(cborHdr(4, 4)) // array of 4
+				_ = cbg.WriteCid(&in, base.Cid)
+				fill := func(n uint64) {
+					if present {
+						in.Write(rbytes(r, int(n)))
+					} else if n > 0 {
+						in.Write(rbytes(r, int(min(n-1, 5))))
+					}
+				}
+				// addresses
+				switch f.name {
+				case "one-address":
+					in.Write(cborHdr(4, 1))
+					in.Write(cborHdr(2, L))
+					fill(L)
+				case "address-count":
+					in.Write(cborHdr(4, L))
+					if present {
+						for k := uint64(0); k < L; k++ {
+							in.Write(cborHdr(2, 1))
+							in.WriteByte(byte(k))
+						}
+					}
+				default:
+					in.Write(cborHdr(4, 0))
+				}
+				complete := present
+				if (f.name == "one-address" || f.name == "address-count") && !present {
+					goto decode
+				}
+				// extra data
+				if f.name == "extra-data" {
+					in.Write(cborHdr(2, L))
+					fill(L)
+					if !present {
+						goto decode
+					}
+				} else {
+					in.Write(cborHdr(2, 0))
+				}
+				// orig peer
+				if f.name == "orig-peer" {
+					in.Write(cborHdr(3, L))
+					if present {
+						in.Write(bytes.Repeat([]byte{'Q'}, int(L)))
+					} else if L > 1 {
+						in.WriteString("Q")
+					}
+				} else {
+					in.Write(cborHdr(3, 2))
+					in.WriteString("Qm")
+				}
+			decode:
+				input := in.Bytes()
+				wit := func() any {
+					return map[string]any{"case": desc, "input_bytes": len(input), "input_head_hex": hex.EncodeToString(input[:min(len(input), 120)])}
+				}
+				var d message.Message
+				var err error
+				alloc := vf.AllocDelta(func() {
+					c.Guard(sub, i, wit, func() { err = d.UnmarshalCBOR(bytes.NewReader(input)) })
+				})
+				c.Eval(1)
+				c.Inc("crafted_cases")
+				within := L <= f.cap
+				switch {
+				case !within:
+					if err == nil {
+						c.Fail(sub, i, "length-over-field-cap-accepted:"+f.name, desc, wit())
+					}
+					// nothing may be allocated for a length that is over the cap
+					if alloc > 256<<10+4*uint64(len(input)) {
+						c.Fail(sub, i, "alloc-beyond-field-caps:"+f.name, fmt.Sprintf("%s: decoding %d bytes allocated %d", desc, len(input), alloc), wit())
+					}
+					c.Inc("crafted_over_cap")
+				case !complete:
+					if err == nil && L > 0 {
+						c.Fail(sub, i, "incomplete-input-accepted:"+f.name, desc, wit())
+					}
+					perUnit := uint64(1)
+					if f.name == "address-count" {
+						perUnit = 24 // one slice header per declared address
+					}
+					if alloc > 64<<10+4*uint64(len(input))+2*f.cap*perUnit {
+						c.Fail(sub, i, "alloc-beyond-field-caps:"+f.name, fmt.Sprintf("%s: decoding %d bytes allocated %d", desc, len(input), alloc), wit())
+					}
+				default:
+					if err != nil {
+						c.Fail(sub, i, "message-within-caps-rejected:"+f.name, err.Error(), wit())
+						continue
+					}
+					c.Inc("crafted_within_caps_decoded")
+				}
+				if err != nil {
+					continue
+				}
+				c.Guard(sub, i, wit, func() {
+					var buf bytes.Buffer
+					if err := d.MarshalCBOR(&buf); err != nil {
+						c.Fail(sub, i, "accepted-not-reencodable:"+f.name, err.Error(), wit())
+						return
+					}
+					var d2 message.Message
+					if err := d2.UnmarshalCBOR(bytes.NewReader(buf.Bytes())); err != nil {
+						c.Fail(sub, i, "reencoding-not-decodable:"+f.name, err.Error(), wit())
+					} else if df := msgDiff(&d, &d2); df != "" {
+						c.Fail(sub, i, "reencoding-differs:"+df, "", wit())
+					}
+					_, _ = d.GetAddrs()
+				})
+				c.Distinct(sub, desc)
+			}
+		}
 	}
 }
